@@ -24,18 +24,38 @@ def _chars(api, s):
 
 
 def generate(api):
+    P = api.P
     tree, rel = api.parse(REL)
-    fn = None
-    for node in ast.walk(tree):
-        if isinstance(node, ast.FunctionDef) and node.name == FUNC:
-            fn = node
-    if fn is None:
-        raise api.P.Untranslatable("%s: no function %s" % (REL, FUNC))
-    # ast.walk is breadth-first; order the literals by position in the source
-    pos = sorted((n.lineno, n.col_offset, n.value) for n in ast.walk(fn)
-                 if isinstance(n, ast.Constant) and isinstance(n.value, str) and "\x1b" in n.value)
-    codes = [v for _, _, v in pos]
-    if len(codes) != 2 or codes[0].count("{}") != 1 or "{" in codes[1]:
+    # strict: the whole method has the modelled shape (collect the sections above this one, and when there are rows to
+    # clear write the cursor-up code with the row count and then the erase code, return the collected content); named
+    # module / class constants are read through; only the two codes themselves are holes
+    fn = P.inline_literals(P.find_function(tree, "SectionOutput", FUNC, rel, decorators=()), tree, "SectionOutput")
+    a = fn.args
+    if len(a.args) != 2 or a.args[0].arg != "self" or a.vararg or a.kwarg or a.kwonlyargs or \
+            [ast.unparse(d) for d in a.defaults] != ["0"]:
+        raise P.Untranslatable("%s:%d: %s(self, lines_to_clear_count=0) expected" % (REL, fn.lineno, FUNC))
+    P.check_bases(tree, "SectionOutput", ["Output"], rel)
+    b = P.Template("""
+        def f(self, V_count=0):
+            V_erased = []
+            for V_section in self._sections:
+                if V_section is self:
+                    break
+                V_count += V_section.lines
+                V_erased.append(V_section.content)
+            if V_count > 0:
+                super(SectionOutput, self).write(CONST_up.format(V_count), with_indent=False)
+                super(SectionOutput, self).write(CONST_erase, with_indent=False)
+            return "".join(reversed(V_erased))
+    """)
+    f2 = ast.FunctionDef(name="f", args=fn.args, body=fn.body, decorator_list=[], returns=None, type_comment=None,
+                         lineno=fn.lineno, col_offset=0)
+    if hasattr(ast, "TypeAlias"):
+        f2.type_params = []
+    b = b.match([f2], REL, FUNC)
+    codes = [b["up"].value, b["erase"].value]
+    if not all(isinstance(c, str) and "\x1b" in c for c in codes) or codes[0].count("{}") != 1 \
+            or "{" in codes[0].replace("{}", "") or "}" in codes[0].replace("{}", ""):
         raise api.P.Untranslatable("%s:%s: expected a cursor-up format with one {} and one erase code, found %r"
                                    % (REL, FUNC, codes))
     pre, suf = codes[0].split("{}")
